@@ -357,3 +357,62 @@ def stepctl_replay(exe, edges, one, cfgs, modes, jobs=14, timeout=900):
                         r["err"] = max([abs(a - b) for a, b in zip(vals, exp)]) if len(vals) == len(exp) and not any(x != x for x in vals) else float("inf")
                 results.append((i, r))
     return results, fails
+
+
+EXAMPLES = {"RabiOscilations": ["rabi.cpp", "main.cpp"], "VacuumNeutrinoOscillations": ["vacuum.cpp", "main.cpp"],
+            "CollectiveNeutrinoOscillations": ["collective.cpp", "main.cpp"]}
+
+
+def example_traces(v, names, maxev, tlimit=240):
+    """The programs under examples/ rebuilt with the hooks (sources untouched) as trace sources: the first maxev
+    solver-protocol events of each run are validated against Solver by SolverHookTrace."""
+    import tempfile, json as _j
+    ntr = nev = 0
+    for name in names:
+        d = os.path.join(vlib.REPO, "examples", name)
+        if not os.path.isdir(d):
+            raise vlib.Infra("example %s is missing from the tree" % name)
+        srcs = [os.path.join(d, f) for f in EXAMPLES[name]] + ["example_sink.cpp"]
+        exe = vlib.build_harness("example_" + name, "plain", sources=srcs, extra_flags=["-I" + d])
+        work = tempfile.mkdtemp(prefix="ex_", dir=vlib.BUILD)
+        trace = os.path.join(work, "trace.ndjson")
+        try:
+            try:
+                p = vlib.sh([exe], cwd=work, stdin="no\n", timeout=tlimit, env={"SQUIDS_VERIF_TRACE": trace, "SQUIDS_VERIF_MAXEV": str(maxev)})
+                rc = p.returncode
+            except vlib.Infra:
+                rc = "timeout"
+            lines = [l for l in open(trace).read().splitlines() if l.startswith("{")] if os.path.exists(trace) else []
+            if isinstance(rc, int) and rc < 0:
+                v.violation("examples/%s/crash" % name, "examples/%s died with signal %s after %d protocol events" % (name, -rc, len(lines)), None)
+                continue
+            if rc == "timeout" or not lines or not lines[-1].startswith('{"e":"End"'):
+                # not finished within the limit: validate the complete prefix written so far (flushed at every Evolve end)
+                while lines and '"e":"EvolveEnd"' not in lines[-1]:
+                    lines.pop()
+                lines.append('{"e":"End"}')
+            if len(lines) < 3:
+                raise vlib.Infra("examples/%s produced no protocol events (rc=%s)" % (name, rc))
+            if any('"contract":false' in l for l in lines):
+                raise vlib.Infra("environment outside assumption in examples/%s: GSL evaluated the first right-hand side of a run away from the caller's array" % name)
+            with open(trace, "w") as f:
+                f.write("\n".join(lines) + "\n")
+            cfg = os.path.join(vlib.BUILD, "SolverHookTrace_run.cfg")
+            with open(cfg, "w") as f:
+                f.write("SPECIFICATION TSpec\nCONSTANTS\n  Objs = {1,2,3,4,5,6,7,8}\n  Addrs = {%s}\n  MaxSteps = 0\n  FirstAtSys = TRUE\n"
+                        "INVARIANTS BindOK AfterEvolve SysUnique\nPOSTCONDITION Accepted\nCHECK_DEADLOCK FALSE\n" % ",".join(str(i) for i in range(0, 600)))
+            r = vlib.tlc("SolverHookTrace", cfg, workers=1, timeout=900, env={"TRACE": trace}, coverage=False, xmx="4g")
+            ok = not (("Postcondition Accepted" in r.out and "is false" in r.out) or r.violated or r.error)
+            if ok:
+                ntr += 1; nev += len(lines)
+            else:
+                k = max(0, r.depth - (2 if r.violated else 1))
+                e = _j.loads(lines[k]) if k < len(lines) else {}
+                v.violation("examples/%s/%s" % (name, e.get("e", "?")), "examples/%s: protocol event %d of %d not explained by Solver: %s (%s)" % (
+                    name, k, len(lines), lines[k][:300] if k < len(lines) else "?", r.violated or r.error or "no matching step"), {"example": name, "event": e, "context": lines[max(0, k - 4):k + 1]})
+            v.cov.setdefault("example_programs_as_trace_sources", {})[name] = {"events_validated": len(lines), "accepted": ok,
+                                                                                "rhs_events": sum(1 for l in lines if '"e":"Rhs"' in l), "evolve_calls": sum(1 for l in lines if '"e":"EvolveEnd"' in l)}
+        finally:
+            import shutil
+            shutil.rmtree(work, ignore_errors=True)
+    return ntr, nev
